@@ -188,8 +188,11 @@ fn main() {
             for _ in 0..n / 8 + 4 {
                 let a = rng.below(128);
                 let t = if rng.chance(1, 2) { "L" } else { "R" };
-                let last = match rng.below(4) {
+                let last = match rng.below(7) {
                     0 => 0,
+                    4 => (1u64 << *rng.pick(&[8u64, 16, 32, 48])) - rng.range(1, 6),
+                    5 => (1u64 << rng.range(8, 55)) - rng.range(1, 6),
+                    6 => (1u64 << *rng.pick(&[8u64, 16, 32])) + rng.below(3),
                     1 => (1u64 << 56) - rng.range(1, 6),
                     2 => rng.below(1000),
                     _ => rng.next() >> 9,
